@@ -19,6 +19,9 @@ type absSeq struct {
 	base    string   // "recv", "arg", "fresh", "nil"
 	ok      bool
 	why     string
+	// clipped: the slice has no spare capacity (x[lo:hi:hi]): appending at least one element to it
+	// allocates a new array
+	clipped bool
 }
 
 func (s absSeq) String() string {
@@ -139,6 +142,55 @@ type c19eval struct {
 	vars   map[types.Object]absSeq // locals
 	cur    *absSeq                 // current abstract value of *d (nil = D unchanged)
 	copies []absSeq                // destinations of copy() calls
+	// facts: what the branch conditions taken so far say about the entry list ("D") and the
+	// argument ("A"): +1 not empty, -1 empty
+	facts map[string]int
+}
+
+// nonEmpty: the sequence certainly has an element under the current facts.
+func (ev *c19eval) nonEmpty(v absSeq) bool {
+	if v.unknown {
+		return false
+	}
+	for _, a := range v.atoms {
+		if ev.facts[a] > 0 {
+			return true
+		}
+	}
+	return false
+}
+
+// emptinessTest: cond is a test of len(list at entry) or len(argument) against 0 (or 1):
+// returns the atom and what holds in the then-branch (+1 not empty, -1 empty).
+func (ev *c19eval) emptinessTest(cond ast.Expr) (atom string, then int, ok bool) {
+	be, isB := ast.Unparen(cond).(*ast.BinaryExpr)
+	if !isB {
+		return "", 0, false
+	}
+	l, ok1 := ev.intExpr(be.X)
+	k, ok2 := ev.intExpr(be.Y)
+	if !ok1 || !ok2 || len(l) != 1 || len(k) > 1 {
+		return "", 0, false
+	}
+	switch {
+	case l["d"] == 1:
+		atom = "D"
+	case l["n"] == 1:
+		atom = "A"
+	default:
+		return "", 0, false
+	}
+	kv, isConst := k["1"]
+	if len(k) == 1 && !isConst {
+		return "", 0, false
+	}
+	switch {
+	case be.Op == token.EQL && kv == 0, be.Op == token.LEQ && kv == 0, be.Op == token.LSS && kv == 1:
+		return atom, -1, true
+	case be.Op == token.NEQ && kv == 0, be.Op == token.GTR && kv == 0, be.Op == token.GEQ && kv == 1:
+		return atom, 1, true
+	}
+	return "", 0, false
 }
 
 func (ev *c19eval) eval(e ast.Expr) absSeq {
@@ -174,6 +226,7 @@ func (ev *c19eval) eval(e ast.Expr) absSeq {
 		if !full {
 			v.unknown = true
 		}
+		v.clipped = x.Slice3 && x.High != nil && x.Max != nil && types.ExprString(x.High) == types.ExprString(x.Max)
 		if v.base == "nil" {
 			v.base = "fresh"
 		}
@@ -201,6 +254,9 @@ func (ev *c19eval) eval(e ast.Expr) absSeq {
 					base := a.base
 					if base == "nil" {
 						base = "fresh" // append to nil allocates
+					}
+					if a.clipped && ev.nonEmpty(b) {
+						base = "fresh" // no spare capacity and something to add: a new array
 					}
 					return absSeq{atoms: append(append([]string{}, a.atoms...), b.atoms...), unknown: a.unknown || b.unknown, base: base, ok: true}
 				}
@@ -505,6 +561,7 @@ type c19path struct {
 	ip          *ipState
 	val         absSeq
 	conditional bool
+	facts       map[string]int // emptiness of D / A established by the conditions on the path
 }
 
 // run interprets a statement list over all paths (conditions are not interpreted: every branch is
@@ -515,9 +572,13 @@ func (ev *c19eval) run(list []ast.Stmt) (paths []c19path, undecided string) {
 		vars        map[types.Object]absSeq
 		conditional bool
 		ip          *ipState
+		facts       map[string]int
 	}
 	clone := func(s state) state {
-		n := state{conditional: s.conditional, vars: map[types.Object]absSeq{}, ip: s.ip.clone()}
+		n := state{conditional: s.conditional, vars: map[types.Object]absSeq{}, ip: s.ip.clone(), facts: map[string]int{}}
+		for k, v := range s.facts {
+			n.facts[k] = v
+		}
 		if s.cur != nil {
 			c := *s.cur
 			n.cur = &c
@@ -529,14 +590,14 @@ func (ev *c19eval) run(list []ast.Stmt) (paths []c19path, undecided string) {
 	}
 	finish := func(s state, ret *absSeq) {
 		if ret != nil {
-			paths = append(paths, c19path{ip: s.ip, val: *ret, conditional: s.conditional})
+			paths = append(paths, c19path{ip: s.ip, val: *ret, conditional: s.conditional, facts: s.facts})
 			return
 		}
 		v := absSeq{atoms: []string{"D"}, base: "recv", ok: true}
 		if s.cur != nil {
 			v = *s.cur
 		}
-		paths = append(paths, c19path{ip: s.ip, val: v, conditional: s.conditional})
+		paths = append(paths, c19path{ip: s.ip, val: v, conditional: s.conditional, facts: s.facts})
 	}
 	var exec func(list []ast.Stmt, s state) (live []state)
 	exec = func(list []ast.Stmt, s state) []state {
@@ -544,7 +605,7 @@ func (ev *c19eval) run(list []ast.Stmt) (paths []c19path, undecided string) {
 		for _, st := range list {
 			var next []state
 			for _, cs := range live {
-				ev.cur, ev.vars, ev.ip = cs.cur, cs.vars, cs.ip
+				ev.cur, ev.vars, ev.ip, ev.facts = cs.cur, cs.vars, cs.ip, cs.facts
 				switch x := st.(type) {
 				case *ast.AssignStmt:
 					if len(x.Lhs) != 1 || len(x.Rhs) != 1 {
@@ -634,10 +695,33 @@ func (ev *c19eval) run(list []ast.Stmt) (paths []c19path, undecided string) {
 						cs = after[0]
 					}
 					a := clone(cs)
-					a.conditional = true
-					next = append(next, exec(x.Body.List, a)...)
 					b := clone(cs)
-					b.conditional = true
+					if atom, then, okT := ev.emptinessTest(x.Cond); okT && cs.facts[atom] == 0 {
+						// a test of emptiness is interpreted: each branch knows which side it is on
+						a.facts[atom], b.facts[atom] = then, -then
+					} else if okT && cs.facts[atom] != 0 {
+						// already decided on this path: one branch is dead
+						if cs.facts[atom] == then {
+							next = append(next, exec(x.Body.List, a)...)
+						} else {
+							switch el := x.Else.(type) {
+							case nil:
+								next = append(next, b)
+							case *ast.BlockStmt:
+								next = append(next, exec(el.List, b)...)
+							case *ast.IfStmt:
+								next = append(next, exec([]ast.Stmt{el}, b)...)
+							}
+						}
+						if undecided != "" {
+							return nil
+						}
+						continue
+					} else {
+						a.conditional = true
+						b.conditional = true
+					}
+					next = append(next, exec(x.Body.List, a)...)
 					switch el := x.Else.(type) {
 					case nil:
 						next = append(next, b)
@@ -685,7 +769,7 @@ func (ev *c19eval) run(list []ast.Stmt) (paths []c19path, undecided string) {
 		}
 		return live
 	}
-	for _, s := range exec(list, state{vars: map[types.Object]absSeq{}, ip: &ipState{curLen: linSym("d"), ints: map[types.Object]lin{}}}) {
+	for _, s := range exec(list, state{vars: map[types.Object]absSeq{}, facts: map[string]int{}, ip: &ipState{curLen: linSym("d"), ints: map[types.Object]lin{}}}) {
 		finish(s, nil)
 	}
 	return
@@ -768,7 +852,21 @@ func (e *Env) C19() {
 				e.Run.Undecided("R-LIST", pk+" value", pos, val.why)
 				continue
 			}
-			contentsOK := !val.unknown && strings.Join(val.atoms, "·") == w.atoms
+			// atoms that the path's conditions make empty do not count on either side
+			live := func(atoms []string) string {
+				var out []string
+				for _, a := range atoms {
+					if pth.facts[a] >= 0 {
+						out = append(out, a)
+					}
+				}
+				return strings.Join(out, "·")
+			}
+			var wantAtoms []string
+			if w.atoms != "" {
+				wantAtoms = strings.Split(w.atoms, "·")
+			}
+			contentsOK := !val.unknown && live(val.atoms) == live(wantAtoms)
 			switch {
 			case contentsOK:
 				e.Run.OK("R-LIST", pk+" contents", pos, fmt.Sprintf("abstract value %s", val))
